@@ -44,7 +44,7 @@ def call(op: str, a: dict) -> dict:
             warnings.simplefilter("ignore")
             f, g = loss_handles(a["loss"])
             if op == "element":
-                x = np.array(a["xs"], dtype=float)
+                x = np.array(a["xs"], dtype=bind._dt(a["xs"], float))      # counts / indicators may be stored as integers
                 m = np.array(a["ms"], dtype=float)
                 return {"st": "ok", "f": [bind.num(v) for v in np.asarray(f(x, m))], "g": [bind.num(v) for v in np.asarray(g(x, m))]}
             K = mk_model(a["K"])
@@ -61,7 +61,7 @@ def call(op: str, a: dict) -> dict:
                 return {"st": "ok", "F": bind.num(F), "G": [bind.matrix(m) for m in G]}
             if op == "estimate":
                 subs = np.array(a["subs"], dtype=int)
-                vals = np.array(a["vals"], dtype=float)
+                vals = np.array(a["vals"], dtype=bind._dt(a["vals"], float))
                 ws = np.array(a["ws"], dtype=float)
                 unit = all(w == 1 for w in a["K"]["w"])
                 crng = np.arange(a["crng"]) if a.get("crng", 0) > 0 else None
@@ -130,7 +130,10 @@ def handle_event(st: dict) -> dict:
         obj = getattr(Objectives, name.upper())
         la = ga = True
         worst = 0.0
-        for r in (RVALS if name == "negative_binomial" else [1.0]):
+        # integer-valued data (counts, indicators) also as stored integers: the element type is a presentation
+        xtypes = [float, np.int64, np.uint8] if all(float(x).is_integer() and x >= 0 for x in xs) else [float]
+        for r, xt in [(r, xt) for r in (RVALS if name == "negative_binomial" else [1.0]) for xt in xtypes]:
+            X = X.astype(xt)
             extra = r if name == "negative_binomial" else (st["bn"] / st["bd"] if name == "beta" else None)
             f, g, _ = setup(obj, additional_parameter=extra) if extra is not None else setup(obj)
             with np.errstate(all="ignore"):
